@@ -4,7 +4,20 @@ CONSTANTS MaxLen = 4
   Starts <- StartsAll
   Xs = {2}
   Nested = FALSE
+  Ys <- NoData
+  Extra <- NoElems
+  Variant = "doc"
   CopyVarContext = TRUE
   ExtendByCompose = TRUE
+INVARIANT DataEq
+INVARIANT ComposeEqSeq
+INVARIANT CombineTuple
+INVARIANT TypedDeclarative
+INVARIANT NestedFlattens
+INVARIANT CarriesName
+INVARIANT CarriesAttributes
+INVARIANT FrameVariableOnly
+INVARIANT VarUnchanged
+INVARIANT Repeatable
 INVARIANT Emitted
 CHECK_DEADLOCK FALSE
